@@ -267,7 +267,14 @@ def parse_youtube_url(url, fix_common_mistakes=True):
     list_query = mlist_query.group(1) if mlist_query else None
 
     if m:
-        return YoutubeVideo(id=m.group(1), playlist=list_query)
+        v = m.group(1)
+
+        if fix_common_mistakes:
+            v = v[:11]
+
+        # NOTE: the pattern runs through "#" and "/" ("...v%3Dabc#t=5")
+        if is_youtube_video_id(v):
+            return YoutubeVideo(id=v, playlist=list_query)
 
     # Parsing
     parsed = safe_urlsplit(url)
